@@ -71,6 +71,9 @@ pub enum Live {
     /// containers of zero-sized elements at their real types: 0 HashSet<()>, 1 BTreeSet<()>, 2 LinkedList<()>,
     /// 3 HashMap<(), ()>, 4 BTreeMap<(), ()>, 5 HashSet<PhantomData<u64>>, with their element count
     Zst(u8, usize),
+    /// a sequence of a zero-sized COMPILED declaration (unit struct, empty struct, one-constructor enum) at its real
+    /// type: container 0 Vec, 1 slice, 2 array; element count
+    ZstAdt(Arc<Decl>, u8, usize),
     Bytes(bytes::Bytes),
     LinkedList(LinkedList<Live>),
     HashSet(HashSet<Live>),
@@ -255,6 +258,9 @@ impl Live {
             (RcSlice(e), Val::Bytes(b)) if **e == U8 => Live::RcSliceU8(std::rc::Rc::from(b.as_slice())),
             (Vec(e), Val::Seq(xs)) if **e == I8 => Live::VecI8(xs.iter().map(|x| x.as_int() as i8).collect()),
             (Vec(e), Val::Seq(xs)) if **e == Bool => Live::VecBool(xs.iter().map(|x| matches!(x, Val::Bool(true))).collect()),
+            (Vec(e), Val::Seq(xs)) if zst_decl(e).is_some() => Live::ZstAdt(zst_decl(e).unwrap(), 0, xs.len()),
+            (Slice(e), Val::Seq(xs)) if zst_decl(e).is_some() => Live::ZstAdt(zst_decl(e).unwrap(), 1, xs.len()),
+            (Array(e, _), Val::Seq(xs)) if zst_decl(e).is_some() => Live::ZstAdt(zst_decl(e).unwrap(), 2, xs.len()),
             (Vec(e), Val::Seq(xs)) if **e == Unit => Live::VecUnit(vec![(); xs.len()]),
             (HashSet(e), Val::Seq(xs)) if **e == Unit => Live::Zst(0, xs.len().min(1)),
             (HashSet(e), Val::Seq(xs)) if **e == Phantom => Live::Zst(5, xs.len().min(1)),
@@ -360,6 +366,7 @@ impl Live {
             Live::VecBool(xs) | Live::ArrayBool(xs) => Val::Seq(xs.iter().map(|x| Val::Bool(*x)).collect()),
             Live::VecUnit(xs) => Val::Seq(vec![Val::Unit; xs.len()]),
             Live::ArrayUnit(n) => Val::Seq(vec![Val::Unit; *n]),
+            Live::ZstAdt(d, _, n) => Val::Seq(vec![if matches!(d.body, vmodel::DeclBody::Enum { .. }) { Val::Variant(0, vec![]) } else { Val::Rec(vec![]) }; *n]),
             Live::Zst(3 | 4, n) => Val::Map(vec![(Val::Unit, Val::Unit); *n]),
             Live::Zst(_, n) => Val::Seq(vec![Val::Unit; *n]),
             Live::Bytes(b) => Val::Bytes(b.to_vec()),
@@ -487,6 +494,7 @@ impl BinarySerializer for Live {
             Live::ArrayI8(xs) => arr_dispatch!(xs.len(), ser_arr, [_, _], xs.clone(), ctx),
             Live::ArrayBool(xs) => arr_dispatch!(xs.len(), ser_arr, [_, _], xs.clone(), ctx),
             Live::ArrayUnit(n) => arr_dispatch!(*n, ser_arr, [_, _], vec![(); *n], ctx),
+            Live::ZstAdt(d, cont, n) => crate::compiled::zst_seq_serialize(&d.name, *cont, *n, ctx),
             Live::Zst(0, n) => (0..*n).map(|_| ()).collect::<std::collections::HashSet<()>>().serialize(ctx),
             Live::Zst(1, n) => (0..*n).map(|_| ()).collect::<std::collections::BTreeSet<()>>().serialize(ctx),
             Live::Zst(2, n) => (0..*n).map(|_| ()).collect::<std::collections::LinkedList<()>>().serialize(ctx),
@@ -540,6 +548,34 @@ impl<'a> BinarySerializer for LiveRefOwned<'a> {
 
 // ------------------------------------------------------------------------------------------------
 // deserialization
+
+/// the compiled zero-sized declaration behind an element type, if it is one
+fn zst_decl(e: &Ty) -> Option<Arc<Decl>> {
+    match e {
+        Ty::Adt(d) if vmodel::declgen::ZST_DECLS.contains(&d.name.as_str()) && crate::compiled::is_compiled(&d.name) => Some(d.clone()),
+        _ => None,
+    }
+}
+
+/// `n` copies of a zero-sized value as a Vec, a slice or an array of its real type
+pub fn zst_ser<T: BinarySerializer + Clone + 'static, O: BinaryOutput>(v: T, cont: u8, n: usize, ctx: &mut SerializationContext<O>) -> Result<()> {
+    let xs = vec![v; n];
+    match cont {
+        0 => xs.serialize(ctx),
+        1 => xs.as_slice().serialize(ctx),
+        _ => arr_dispatch!(n, ser_arr, [_, _], xs, ctx),
+    }
+}
+
+pub fn zst_de<T: BinaryDeserializer + 'static>(cont: u8, n: usize, ctx: &mut DeserializationContext<'_>) -> Result<usize> {
+    match cont {
+        0 => Ok(std::vec::Vec::<T>::deserialize(ctx)?.len()),
+        _ => {
+            let v: std::vec::Vec<T> = arr_dispatch!(n, de_arr, [_], ctx)?;
+            Ok(v.len())
+        }
+    }
+}
 
 fn de_arr<const N: usize, T: BinaryDeserializer>(ctx: &mut DeserializationContext<'_>) -> Result<std::vec::Vec<T>> {
     let a = <[T; N]>::deserialize(ctx)?;
@@ -606,6 +642,14 @@ pub fn decode_as(ty: &Ty, ctx: &mut DeserializationContext<'_>) -> Result<Live> 
         Vec(e) if **e == U8 => Live::VecU8(std::vec::Vec::<u8>::deserialize(ctx)?),
         Vec(e) if **e == I8 => Live::VecI8(std::vec::Vec::<i8>::deserialize(ctx)?),
         Vec(e) if **e == Bool => Live::VecBool(std::vec::Vec::<bool>::deserialize(ctx)?),
+        Vec(e) if zst_decl(e).is_some() => {
+            let d = zst_decl(e).unwrap();
+            Live::ZstAdt(d.clone(), 0, crate::compiled::zst_seq_deserialize(&d.name, 0, 0, ctx)?)
+        }
+        Array(e, n) if zst_decl(e).is_some() => {
+            let d = zst_decl(e).unwrap();
+            Live::ZstAdt(d.clone(), 2, crate::compiled::zst_seq_deserialize(&d.name, 2, *n, ctx)?)
+        }
         Vec(e) if **e == Unit => Live::VecUnit(std::vec::Vec::<()>::deserialize(ctx)?),
         HashSet(e) if **e == Unit => Live::Zst(0, std::collections::HashSet::<()>::deserialize(ctx)?.len()),
         HashSet(e) if **e == Phantom => Live::Zst(5, std::collections::HashSet::<PhantomData<u64>>::deserialize(ctx)?.len()),
